@@ -21,6 +21,7 @@ META = {
         "Not decided: completion time under arbitrary schedules beyond the cap being in place; ReadProtocol (raises by design)."
     ),
 }
+META["explanation"] += " C07.R1 also: QosParams never raises the caller's timeout."
 
 P = "ramses_tx.protocol"
 F = "ramses_tx.protocol_fsm"
